@@ -527,6 +527,8 @@ impl Builtins {
                     let (result, result_pos) = decorate_call!(pos =>
                         VM::fcall_impl(f, self.strict, stack, env, import_stack))?;
                     if let &P(Str(ref s)) = result.as_ref() {
+                        #[cfg(ucg_verif)]
+                        crate::verif::tick_n("runtime::map", (s.len() / 64) as u64);
                         buf.push_str(s);
                     } else {
                         return Err(Error::new(
